@@ -114,16 +114,30 @@ class LongArray(Family):
                     out.append({"grid": name, "strategy": strat, "nq": nq, "fill": not (strat != "closest" and name.startswith("gaps"))})
         return out
 
-    def run(self, ctx, inst, grid, strategy, nq, fill):
-        import traffic_weaver.sorted_array_utils as sau
+    def carrier(self, xs, grid):
         import numpy as np
-        xs = long_grids()[grid]
+        return np.array(xs, dtype=float)
+
+    def grid(self, grid):
+        return long_grids()[grid]
+
+    def run(self, ctx, inst, grid, strategy, nq, fill, via="dispatch", qlist=False):
+        import traffic_weaver.sorted_array_utils as sau
+        xs = self.grid(grid)
         nx = len(xs)
         qs = ctx.reals("q", nq)
         for a, b in zip(qs, qs[1:]):
             ctx.assume(ctx.le(a, b))
-        xin = np.array(xs, dtype=float)
-        idx = sau.find_closest_element_indices_to_values(xin, arr(ctx, qs), strategy=strategy, fill_not_valid=fill)
+        xin = self.carrier(xs, grid)
+        qin = list(qs) if qlist else arr(ctx, qs)
+        if via == "dispatch":
+            idx = sau.find_closest_element_indices_to_values(xin, qin, strategy=strategy, fill_not_valid=fill)
+        elif strategy == "lower":
+            idx = sau.find_closest_lower_equal_element_indices_to_values(xin, qin, fill)
+        elif strategy == "higher":
+            idx = sau.find_closest_higher_equal_element_indices_to_values(xin, qin, fill)
+        else:
+            idx = sau.find_closest_lower_or_higher_element_indices_to_values(xin, qin)
         X = [ctx.exact(float(v)) if not ctx.symbolic else ctx.const(v) for v in xs]
         Q = [ctx.exact(v) for v in qs]
         ctx.claim("dispatch:shape", len(idx) == nq)
@@ -148,6 +162,40 @@ class LongArray(Family):
                 if i < nx - 1:
                     conds.append(_abs_le(ctx, X[i] - q, X[i + 1] - q))
                 ctx.claim("closest", ctx.And(*conds), {"j": j, "i": i})
+
+
+INT_GRIDS = {"pos": [0, 1, 2, 3], "gaps": [0, 2, 4], "neg": [-3, -1, 0, 2, 5], "one": [4], "far": [-10, 10]}
+
+
+class IntegerTypedArray(LongArray):
+    name = "scan-integer-typed-array"
+    doc = ("integer-typed arrays (int64 ndarray / list of Python ints, incl. negative elements) with symbolic real queries, through "
+           "the dispatcher and directly: the queries must not be narrowed to the array's type")
+    split_depth = 0
+
+    def configs(self, tier):
+        out = []
+        for g in sorted(INT_GRIDS):
+            for strat in ("lower", "higher", "closest"):
+                for nq in ((1, 2) if tier == "quick" else (1, 2, 3)):
+                    for fill in ((True, False) if strat != "closest" else (True,)):
+                        for via in ("dispatch", "direct"):
+                            if via == "direct" and nq > 1:
+                                continue
+                            out.append({"grid": g + ("-list" if (nq + len(strat)) % 2 else "-int64"), "strategy": strat, "nq": nq,
+                                        "fill": fill, "via": via, "qlist": (nq + fill) % 2 == 0})
+        return out
+
+    def grid(self, grid):
+        return INT_GRIDS[grid.rsplit("-", 1)[0]]
+
+    def carrier(self, xs, grid):
+        import numpy as np
+        return list(xs) if grid.endswith("-list") else np.array(xs, dtype=np.int64)
+
+    def run(self, ctx, inst, **cfg):
+        ctx.typed_inputs = True
+        return LongArray.run(self, ctx, inst, **cfg)
 
 
 class BadStrategy(Family):
@@ -268,7 +316,7 @@ def main():
     ap.add_argument("--tier", default="quick")
     a = ap.parse_args()
     META["second_engine"] = crosshair_second_engine
-    sys.exit(run_check("C10", "nearest-sample search", [Scan(), LongArray(), BadStrategy()], a.tier, META))
+    sys.exit(run_check("C10", "nearest-sample search", [Scan(), LongArray(), IntegerTypedArray(), BadStrategy()], a.tier, META))
 
 
 if __name__ == "__main__":
